@@ -1,6 +1,7 @@
 package treebidimap
 
 import (
+	"github.com/emirpasic/gods/v2/containers"
 	"cmp"
 
 	"github.com/emirpasic/gods/v2/maps"
@@ -34,4 +35,15 @@ func VHMapStep() {
 	keys, vals := maps.VPairs(true)
 	m := VGMapOf(keys, vals)
 	maps.VMapStep(m, keys, vals, maps.VKind{Bidi: true, Sorted: true, GetKey: m.GetKey, Inv: func() { VInv(m) }})
+}
+
+func VHIter() {
+	ks, xs := maps.VPairs(true)
+	m := VGMapOf(ks, xs)
+	keys := m.Keys()
+	vals := make([]int, len(keys))
+	for j, k := range keys {
+		vals[j], _ = m.Get(k)
+	}
+	containers.VKeyIterStep(func() containers.IteratorWithKey[int, int] { return m.Iterator() }, keys, vals, m)
 }
